@@ -8,6 +8,8 @@ let rec pos_of_int (i : int) : positive =
 let n_of_int (i : int) : n = if i = 0 then N0 else Npos (pos_of_int i)
 let rec int_of_pos = function XH -> 1 | XO p -> 2 * int_of_pos p | XI p -> 2 * int_of_pos p + 1
 let int_of_n = function N0 -> 0 | Npos p -> int_of_pos p
+let int_of_z = function Z0 -> 0 | Zpos p -> int_of_pos p | Zneg p -> - (int_of_pos p)
+let z_of_int i = if i = 0 then Z0 else if i > 0 then Zpos (pos_of_int i) else Zneg (pos_of_int (-i))
 let rec nat_of_int i = if i <= 0 then O else S (nat_of_int (i - 1))
 let rec int_of_nat = function O -> 0 | S k -> 1 + int_of_nat k
 
@@ -17,9 +19,11 @@ let reg name f = Hashtbl.replace handlers name f
 
 let pk = function "r" -> PReturn | "e" -> PError | "s" -> PSignal | s -> failwith ("kind " ^ s)
 
+let timeout_arg ms = if ms = "inf" then 2147483647 else int_of_string ms
+
 let parse_event (tok : string) : event =
   match String.split_on_char ',' tok with
-  | ["S"; ms; nf] -> ESend (ms <> "inf", nf = "1")
+  | ["S"; ms; nf] -> ESend (effective_timeout (z_of_int (timeout_arg ms)) <> None, nf = "1")
   | ["P"] -> EPlain
   | ["M"; k; target; tag] ->
       let v = int_of_string (String.sub target 1 (String.length target - 1)) in
@@ -40,7 +44,7 @@ let parse_event (tok : string) : event =
   | _ -> failwith ("event " ^ tok)
 
 (* "BW,i,k:target:tag+k:target:tag/..." : block on call i while the peer delivers the batches *)
-type item = Ev of event | BW of nat * pmsg list list
+type item = Ev of event | SendI of event * string | BW of nat * pmsg list list | BT of nat * int * tv list * pmsg list list
 let parse_pmsg (t : string) : pmsg =
   match String.split_on_char ':' t with
   | [k; target; tag] ->
@@ -52,6 +56,15 @@ let parse_item (tok : string) : item =
   | ["BW"; i; spec] ->
       BW (nat_of_int (int_of_string i),
           List.map (fun b -> List.map parse_pmsg (String.split_on_char '+' b)) (String.split_on_char '/' spec))
+  | ["BT"; i; arg; clocks; arr] ->
+      let cl = List.map (fun c -> match String.split_on_char '.' c with
+                                  | [a; b] -> { tv_sec = z_of_int (int_of_string a); tv_usec = z_of_int (int_of_string b) }
+                                  | _ -> failwith ("clock " ^ c)) (String.split_on_char '/' clocks) in
+      let ar = if arr = "x" then [] else
+          List.map (fun b -> if b = "-" then [] else List.map parse_pmsg (String.split_on_char '+' b)) (String.split_on_char '/' arr) in
+      BT (nat_of_int (int_of_string i), timeout_arg arg, cl, ar)
+  | ["S"; ms; _] -> SendI (parse_event tok,
+                           (match effective_timeout (z_of_int (timeout_arg ms)) with None -> "i-" | Some z -> Printf.sprintf "i%d" (int_of_z z)))
   | _ -> Ev (parse_event tok)
 
 let fmt_msg hide (m : msg) =
@@ -97,12 +110,19 @@ let run_line single toks =
   let evs = List.map parse_item toks in
   let st = ref (init_at (n_of_int b)) in
   let segs = List.map (fun it ->
-      let (st', os) = (match it with
-                       | Ev e -> (if single then step1 else step) !st e
-                       | BW (i, bs) -> block_with !st i bs) in
+      let (st', os, pre) = (match it with
+                       | Ev e -> let (a, b) = (if single then step1 else step) !st e in (a, b, "")
+                       | SendI (e, iv) -> let (a, b) = (if single then step1 else step) !st e in
+                           (a, b, if List.exists (function OSent (Some _) -> true | _ -> false) b then iv else "")
+                       | BW (i, bs) -> let (a, b) = block_with !st i bs in (a, b, "")
+                       | BT (i, arg, cl, ar) ->
+                           let r = block_timed !st i (z_of_int arg) cl ar in
+                           (r.t_state, r.t_obs,
+                            String.concat "" (List.map (fun z -> Printf.sprintf "q%d" (int_of_z z)) r.t_polls)
+                            ^ (match r.t_out with Returned -> "" | Hang -> "HANG" | ClockExhausted -> "EXHAUSTED" | Fuel -> "FUEL"))) in
       st := st';
       let a = List.filter early os and b = List.filter (fun o -> not (early o)) os in
-      String.concat "" (List.map fmt_obs (a @ b)) ^ fmt_state st') evs in
+      (match it with SendI _ -> String.concat "" (List.map fmt_obs (a @ b)) ^ pre | _ -> pre ^ String.concat "" (List.map fmt_obs (a @ b))) ^ fmt_state st') evs in
   String.concat ";" segs
 
 let () =
